@@ -367,7 +367,7 @@ impl FrameChecker {
             Op::Drop => self.step_flush(s, true),
             Op::Query => {
                 if let Some(a) = s.attempts.first() {
-                    let d = format!("a read-only call (stats) wrote {:?} to the socket", a.bytes.as_ref().map(|b| show(b)));
+                    let d = format!("a step that gives no reason to write (a read-only call such as stats(), a pause, the drop of another client of the sink) was followed by {:?} on the socket", a.bytes.as_ref().map(|b| show(b)));
                     self.f4("write-on-query", d)?;
                     // tolerated: judge the writes as a flush would be judged
                     let s2 = Step { op: Op::Flush, attempts: s.attempts.clone(), res: Res::OkUnit };
